@@ -1283,6 +1283,11 @@ func pickIdlePieces(t *Torrent, count int) {
 		for _, p := range t.peers {
 			fast := p.GetFast()
 			for _, i := range fast {
+				if i >= uint32(maxp) {
+					// the peer is lying, or it sent this
+					// before we had the metadata
+					continue
+				}
 				if !t.Pieces.Complete(i) && p.GetHave(i) {
 					if add(i) {
 						return
